@@ -71,6 +71,8 @@ var truthValues = []truthVal{
 	{"array", [2]int{0, 0}, 1, "array"},
 	{"struct", vStruct{Name: "n"}, 1, "struct"}, {"struct_zero", vStruct{}, 1, "struct"},
 	{"ptr", &vStruct{Name: "p"}, 1, "ptr"}, {"nil_ptr", nilStructPtr, -1, "nilptr"}, {"nil_intptr", (*int)(nil), -1, "nilptr"},
+	// a pointer that is not nil is truthy whatever it points to (an optional field that is set)
+	{"ptr_false", new(bool), 1, "ptr"}, {"ptr_zero", new(int), 1, "ptr"}, {"ptr_empty", new(string), 1, "ptr"}, {"ptr_f0", new(float64), 1, "ptr"},
 	{"negzero", math.Copysign(0, -1), -1, "float64"}, {"negzero32", float32(math.Copysign(0, -1)), -1, "float32"},
 	{"nan", math.NaN(), 0, "nan"},
 	// values whose string form has more than one spelling (exponent notation, sign, width)
